@@ -128,6 +128,10 @@ def r3_gated(ctx):
     b = ctx.need('C08.R3', 'App::build', ctx.fb.body('pavexc', APP_BUILD))
     if b is None:
         return
+    from ..inline import inlined
+    # App::build with the private helpers it was split into (and a `checkpoint()`-style gate helper of the sink) put back
+    b = inlined(ctx.fb, b, also=lambda cb: cb.nid.startswith(SINK) and cb.nid != SINK + 'has_errored' and cb.raw.get('vis') != 'Public',
+                keep={SINK + 'has_errored'}, depth=3)
     gates = [bb for bb, t in b.calls() if callee(t) == SINK + 'has_errored']
     oks = [bb for bb, j, st in b.all_assigns() if st['lhs'] == {'l': 0} and st['rv']['k'] == 'agg' and st['rv'].get('var') == 'Ok']
     ctx.need('C08.R3', 'Ok(..) return of App::build', oks)
@@ -137,23 +141,38 @@ def r3_gated(ctx):
             continue
         if 'mo' in t and (t.get('mo') or '').startswith('tracing'):
             continue
+        c = callee(t) or '?'
+        if c.startswith(('core::ops::try_trait::', 'core::convert::', 'core::clone::')):
+            continue        # `?` / conversions carrying the sink along are not passes
         n += 1
         leak = set(oks) & b.reachable(b.succ(bb), avoid=gates)
-        ctx.ob('C08.R3', 'gated|%s' % (callee(t) or '?').replace(PX, '').replace('analyses::', ''), not leak, b.loc(bb, t),
-               'after %s every path to Ok(..) passes a has_errored() gate' % (callee(t) or '?').split('::')[-1])
+        ctx.ob('C08.R3', 'gated|%s' % c.replace(PX, '').replace('analyses::', ''), not leak, b.loc(bb, t),
+               'after %s every path to Ok(..) passes a has_errored() gate' % c.split('::')[-1])
     ctx.floor('C08.R3', 'sink-taking passes in App::build', n, 10)
+    # the erroring branch of every gate never reaches the Ok(..) result (it returns, or propagates, the sink as an error)
     for gbb in gates:
         t = b.term(gbb)
         d = t['dest']['l']
         good = False
+        der = forward_derived(b, {d})
         for sb in b.live_blocks():
             w = b.term(sb)
-            if w and w['k'] == 'switch' and 'enum' not in w and op_place(w['d']) and op_place(w['d'])['l'] in forward_derived(b, {d}):
+            if w and w['k'] == 'switch' and 'enum' not in w and op_place(w['d']) and op_place(w['d'])['l'] in der:
                 zero = [tg for v, tg in w['ts'] if v == '0']
                 reg = b.reachable(w['else'], avoid=zero)
-                errs = [x for x, j, st in b.all_assigns() if x in reg and st['lhs'] == {'l': 0} and st['rv']['k'] == 'agg' and st['rv'].get('var') == 'Err']
-                good = bool(errs) and not (set(oks) & reg)
-        ctx.ob('C08.R3', 'gate-returns-err|bb-order-%d' % gates.index(gbb), good, b.loc(gbb, t), 'the true branch of this has_errored() gate returns Err(sink)')
+                rets = set(b.return_blocks())
+                good = bool(reg & rets) and not (set(oks) & reg)
+                if not good and (reg & rets):
+                    # the branch may rejoin the main line before `?` sorts it out (`sink.checkpoint()?`): interpret from the erroring edge on
+                    # (P11, Option/Result algebra) — every way out must be an Err
+                    from ..absint_std import StdSem, TagInterp
+                    try:
+                        outs = TagInterp(StdSem(ctx.fb), max_paths=2000).run(b, {}, start=w['else'])
+                        good = bool(outs) and all(oc[0] == 'return' and oc[1].tags.get((b.id, 0)) == 'res:Err' for oc in outs)
+                    except RuntimeError:
+                        good = False
+        ctx.ob('C08.R3', 'gate-returns-err|bb-order-%d' % gates.index(gbb), good, b.loc(gbb, t),
+               'the true branch of this has_errored() gate leaves App::build without ever reaching the Ok(..) result')
 
 
 def r6_whole_domain(ctx):
